@@ -6,6 +6,7 @@ package http
 // Injected with `go test -overlay`.  Output: `REPLAY-RESULT {json}`.
 
 import (
+	"strings"
 	"bytes"
 	"context"
 	"crypto/rand"
@@ -63,8 +64,14 @@ func TestVerifReplayReadAPI(t *testing.T) {
 	}
 	stored := map[string][]byte{}
 	ctx := context.Background()
-	for _, l := range logs[:2] {
-		out, err := w.Update(ctx, l.id, 0, mk(l, l.s, "utilisation: 85%\n"), nil)
+	for i, l := range logs[:2] {
+		ext := "utilisation: 85%\n"
+		if i == 1 {
+			// a large checkpoint (many extension lines): the server sends it chunked, without Content-Length, and it is
+			// larger than any small fixed buffer or cap a client might use
+			ext = strings.Repeat("extension line with some padding to make the checkpoint large: 85%\n", 1100)
+		}
+		out, err := w.Update(ctx, l.id, 0, mk(l, l.s, ext), nil)
 		if err != nil {
 			t.Fatalf("setup: %v", err)
 		}
@@ -100,7 +107,8 @@ func TestVerifReplayReadAPI(t *testing.T) {
 			for _, tag := range []string{"C16.h1", "C16.h3", "C16.g"} {
 				chk(tag, resp.StatusCode == 200 && bytes.Equal(body, want), fmt.Sprintf("GET %s: status %d, body differs from the stored checkpoint: %v", l.origin, resp.StatusCode, !bytes.Equal(body, want)))
 			}
-			chk("C16.c3", cerr == nil && bytes.Equal(got, want), fmt.Sprintf("client for %s: %v", l.origin, cerr))
+			chk("C16.c3", cerr == nil && bytes.Equal(got, want), fmt.Sprintf("client for %s (stored checkpoint of %d bytes): got %d bytes, err %v", l.origin, len(want), len(got), cerr))
+			chk("C16.c6", !errors.Is(cerr, os.ErrNotExist), fmt.Sprintf("client for %s: 'does not exist' although the witness serves a checkpoint of %d bytes with status 200", l.origin, len(want)))
 		} else {
 			chk("C16.h2", resp.StatusCode == 404, fmt.Sprintf("GET %s (no checkpoint): status %d", l.origin, resp.StatusCode))
 			chk("C16.c2", errors.Is(cerr, os.ErrNotExist) && got == nil, fmt.Sprintf("client for %s: (%q, %v), want os.ErrNotExist", l.origin, got, cerr))
